@@ -7,8 +7,12 @@
      cli/src/command/commons.rs  run_across_archive (follow the parts while has_next_archive: next_source(n)
                                  = File::open(path.with_part(n)), Archive::read_next_archive),
                                  write_split_archive / _path / _writer
-     cli/src/command/split.rs    split_archive: Archive::read_header of the ONE file named on the command
-                                 line, its raw_entries (no part chaining), write_split_archive
+     cli/src/command/split.rs    split_archive (as repaired by f4d9f833): Archive::read_header of the file named
+                                 on the command line, then an iterator that yields its raw_entries one by one and,
+                                 when a part is exhausted and announced a successor, opens the next one
+                                 (PathArchiveProvider::next_source(n), Archive::read_next_archive with the
+                                 part-number check) — the same chain walk as run_across_archive;
+                                 write_split_archive pulls from that iterator
      cli/src/utils/io.rs         is_pna: read_exact of 8 bytes, compared with the signature
    The default build has no `memmap` feature: the stream reader (read_chunk_stream) is the one used.
    What the code does and the model therefore does too:
@@ -86,10 +90,30 @@ Definition c_of (c : chunk) : Split.chunk := (cty c, cdata c).
 Definition c_to (c : Split.chunk) : chunk := mk (fst c) (snd c).
 Definition part_file (f : Split.pfile) : bytes := sig ++ ser_chunks (map c_to f).
 
-(* split_archive: entries are pulled from the reader one at a time while parts are written, so a
-   failure of the splitter on an earlier entry comes before a read error behind it; the successor
-   flag of the input and an entry left open at its AEND are ignored *)
-Definition split_cmd (max : N) (a : bytes) : res (list bytes) :=
+(* split_archive, as repaired by f4d9f833: the input is a part chain, read the way concat reads each of its
+   arguments (read_parts: the file named, then with_part(2), with_part(3), ... while the part just read
+   announced a successor; a missing one is NotFound, a wrongly numbered one InvalidData; chunks of an entry
+   open at the AEND of a part are carried into the next part, so an entry straddling a part boundary is
+   reassembled).  File::open and Archive::read_header of the first file come first.  Then entries are
+   pulled from the reader one at a time while parts are written (std::iter::from_fn: the next part is
+   opened only when the current one is exhausted), so a failure of the splitter — the size check of
+   write_split_archive_writer, made before the first entry is pulled, or a chunk that does not fit — on an
+   earlier entry comes before a read error behind it: read_parts delivers the entries read before the
+   failure together with the failure *)
+Definition split_cmd (max : N) (chain : list bytes) : res (list bytes) :=
+  do (es, f) <- read_parts rd chain;
+  do parts <- Split.write_split max (map (map c_of) es);
+  match f with
+  | FinOk => Ok (map part_file parts)
+  | FinErr e => Err e
+  | FinPanic => Panic
+  end.
+
+(* the command as it was before f4d9f833: ONE file, its successor flag and an entry left open at its AEND
+   ignored — on the first part of a multipart archive everything behind the first part boundary, the
+   straddling entry included, was dropped and the command succeeded (kept for the record:
+   C13_split_part1_unrepaired_refuted) *)
+Definition split_cmd_orig (max : N) (a : bytes) : res (list bytes) :=
   do s <- open_archive rd [] a;
   let '(es, f, _) := raw_entries_loop rd (S (length a)) s in
   do parts <- Split.write_split max (map (map c_of) es);
@@ -99,8 +123,8 @@ Definition split_cmd (max : N) (a : bytes) : res (list bytes) :=
   | FinPanic => Panic
   end.
 
-(* `pna split a --max-size max` followed by `pna concat out <first part>` *)
-Definition splitcat (max : N) (a : bytes) : res (list bytes * bytes) :=
-  do parts <- split_cmd max a;
+(* `pna split <first file of the chain> --max-size max` followed by `pna concat out <first part>` *)
+Definition splitcat (max : N) (chain : list bytes) : res (list bytes * bytes) :=
+  do parts <- split_cmd max chain;
   do out <- concat_cmd [parts];
   Ok (parts, out).
